@@ -1,8 +1,56 @@
-(* C38 — temporary: unfixed code. *)
+(* C38 — DNS answers never go back behind an acknowledged publish.
+   This file holds ONLY the property theorems; each is closed by `exact`. *)
 From V Require Import Lib.Base Model.C38 Proofs.C38.
 Import C38.
 Open Scope N_scope.
 
+(* For every list of concurrent calls (resolve / insert / get_signed_packet) and
+   EVERY schedule of their atomic steps: if the run contains the acknowledgement
+   `true` of the publish of p, and later the answer a of a lookup for p's key
+   whose first step comes after that acknowledgement, then a is the answer of a
+   published packet q for that key that is not older than p. *)
+Theorem C38_no_stale_after_ack : forall tasks sched l1 l2 l3 j p i k nm a,
+  combine (full_sched tasks sched) (model (tasks, sched)) =
+    l1 ++ (j, ODoneP true) :: l2 ++ (i, ODoneR a) :: l3 ->
+  nth_error tasks j = Some (TPublish p) ->
+  nth_error tasks i = Some (TResolve k nm) ->
+  pkey p = k ->
+  (forall o, In (i, o) l1 -> o = OSkip) ->
+  exists q, In q (pubs tasks) /\ pkey q = k /\ ge q p = true /\ ans q nm = a.
+Proof. exact no_stale_after_ack. Qed.
+Print Assumptions C38_no_stale_after_ack.
+
+(* The boolean monitor evaluated on implementation outputs implies that statement
+   (for lookups through resolve; packet reads are checked the same way by fresh_G). *)
+Theorem C38_monitor_sound : forall tasks sched os,
+  monitor (tasks, sched) os = true ->
+  forall l1 l2 l3 j p i k nm a,
+    combine (full_sched tasks sched) os = l1 ++ (j, ODoneP true) :: l2 ++ (i, ODoneR a) :: l3 ->
+    nth_error tasks j = Some (TPublish p) ->
+    nth_error tasks i = Some (TResolve k nm) ->
+    pkey p = k ->
+    (forall o, In (i, o) l1 -> o = OSkip) ->
+    exists q, In q (pubs tasks) /\ pkey q = k /\ ge q p = true /\ ans q nm = a.
+Proof. exact monitor_sound. Qed.
+Print Assumptions C38_monitor_sound.
+
+(* The model's run satisfies the monitor for every input: no known class. *)
+Theorem C38_model_satisfies_monitor : forall i, monitor i (model i) = true.
+Proof. exact fixed_monitor. Qed.
+Print Assumptions C38_model_satisfies_monitor.
+
+(* The code before the fix (cache fill not guarded by the invalidation count)
+   violates the property: resolve reads p1, publish of p2 commits, invalidates and
+   is acknowledged, resolve caches p1, a later resolve is answered with p1. *)
 Theorem C38_unfixed_refuted : exists i, monitor i (model_fx false i) = false.
 Proof. exact unfixed_refuted. Qed.
 Print Assumptions C38_unfixed_refuted.
+
+(* "not older than" is a total preorder (timestamp, then encoded packet bytes). *)
+Theorem C38_ge_trans : forall a b c, ge a b = true -> ge b c = true -> ge a c = true.
+Proof. exact ge_trans. Qed.
+Print Assumptions C38_ge_trans.
+
+Theorem C38_ge_total : forall a b, ge a b = false -> ge b a = true.
+Proof. exact ge_total. Qed.
+Print Assumptions C38_ge_total.
